@@ -20,9 +20,11 @@ cd $D
 order="Gen_water Gen_gas Gen_oil Gen_reservoir Gen_fluid Gen_flowprops Gen_forecast Gen_plotting C01_matrix C12_blackoil C06_root C07_gas C12_spivey C12_viscosity"
 for f in $order; do [ -f $f.v ] && coqc -q -Q ../../coq/Lib BBLib -Q . BBRun $f.v >/dev/null 2>&1 || echo "compile failed: $f"; done
 for f in C*.v; do b=${f%.v}; [ -f $b.vo ] || coqc -q -Q ../../coq/Lib BBLib -Q . BBRun $f >/dev/null 2>&1 || echo "compile failed: $b"; done
-: > ../../coqchk_summary.txt
+# ONLY="C02_mesh C05_interpolator ..." re-checks just those files and replaces their lines in the summary
+if [ -z "${ONLY:-}" ]; then : > ../../coqchk_summary.txt; fi
 for f in C*.vo; do
   b=${f%.vo}
+  if [ -n "${ONLY:-}" ]; then case " $ONLY " in *" $b "*) sed -i "/^$b rc=/d" ../../coqchk_summary.txt;; *) continue;; esac; fi
   s=$(date +%s)
   timeout $T coqchk -silent -o -Q ../../coq/Lib BBLib -Q . BBRun BBRun.$b > ../logs/coqchk/$b.log 2>&1
   rc=$?
